@@ -9,8 +9,8 @@ META = dict(
     level_note='Trusted: translator, shims, CBMC; floating-point expression trees are compared by structure (same operator tree on the '
                'same operands), so an algebraically equal re-association is reported as undecided after native replay, not as a violation; '
                'Surface::local_value and NaturalCoordinate::get_surface_point are contract stubs (any value).',
-    scope='get_temperature of uniform / adiabatic / linear for continental plate, oceanic plate, mantle layer, subducting plate, fault; chapman geotherm; half-space cooling model of the oceanic plate (age = ridge distance / spreading velocity); constant-age plate model of the oceanic plate (linear start profile, each of the 100 series terms, adiabatic sentinel); plume uniform and Gaussian temperature; uniform raw velocity and uniform grains of all six feature families; smooth composition of the subducting plate and of the fault (uniform composition of all families: C02); the ridge look-up Utilities::calculate_ridge_distance_and_spreading behind half-space / plate cooling; parse_entries of 18 area-feature models (own depth range = extremes of the depth surfaces, shared with C07)',
-    not_covered=['the documented "min distance fault center" of the fault smooth composition (unused by the code, not part of the contract)', 'tian2019 water content polynomials (the selection logic around them is under contract in C02), mass conserving slab temperature, random models (no closed form documented)', 'the Fourier-sum bodies of the ridge-age plate models (oceanic plate_model.cc, subducting plate plate_model.cc); for the constant-age plate model the sum is proved term by term (per-iteration lemma in the real loop + trip count), the closed statement "result = sum of 100 terms" follows by induction outside the tool'],
+    scope='get_temperature of uniform / adiabatic / linear for continental plate, oceanic plate, mantle layer, subducting plate, fault; chapman geotherm; half-space cooling model of the oceanic plate (age = ridge distance / spreading velocity); constant-age and ridge-age plate model of the oceanic plate (linear start profile, each of the 100 series terms, adiabatic sentinel, age = ridge distance / spreading velocity); McKenzie plate model of the subducting plate (R, scaled coordinates, each of the 500 alternating terms, adiabatic factor); plume uniform and Gaussian temperature; uniform raw velocity and uniform grains of all six feature families; smooth composition of the subducting plate and of the fault (uniform composition of all families: C02); the ridge look-up Utilities::calculate_ridge_distance_and_spreading behind half-space / plate cooling; parse_entries of 18 area-feature models (own depth range = extremes of the depth surfaces, shared with C07)',
+    not_covered=['the documented "min distance fault center" of the fault smooth composition (unused by the code, not part of the contract)', 'tian2019 water content polynomials (the selection logic around them is under contract in C02), mass conserving slab temperature, random models (no closed form documented)', 'for the three series models (constant-age / ridge-age plate model, slab plate model) the sum is proved term by term (per-iteration lemma in the real loop + trip count), the closed statement "result = sum of 100 terms" follows by induction outside the tool'],
     enforced_elsewhere={},
 )
 
@@ -226,6 +226,9 @@ _c07 = _ilu5.module_from_spec(_s7)
 _s7.loader.exec_module(_c07)
 UNITS += [u for u in _c07.UNITS if u['name'].endswith('_bounds')]
 
+KAPPA = 0.804e-6
+
+
 def adiab(z, tp=TP, alpha=ALPHA, cp=CP):
     return tp * math.exp(alpha * G * z / cp)
 
@@ -243,6 +246,14 @@ def documented(kind, m, fmin, fmax, depth, old):
         tt = m['top temperature'] if m['top temperature'] >= 0 else adiab(zt)
         k, q, A = m['thermal conductivity'], m['top heat flux'], m['heat generation per unit volume']
         new = tt + (q / k) * (depth - zt) - A / (2 * k) * (depth - zt) ** 2
+    elif kind == 'plate model constant age':
+        # Fowler (1990) ch. 7 plate model with a fixed age: linear profile plus 100 terms of the cooling series
+        tt, L = m['top temperature'], m['max depth']
+        tb = m['bottom temperature'] if m['bottom temperature'] >= 0 else adiab(depth)
+        age = m['plate age'] * 31557600.0
+        new = tt + (tb - tt) * (depth / L)
+        for i in range(1, 101):
+            new += (tb - tt) * ((2 / (i * math.pi)) * math.sin(i * math.pi * depth / L) * math.exp(-1.0 * i * i * math.pi * math.pi * KAPPA * age / (L * L)))
     elif kind == 'linear':
         zt, zb = max(fmin, m['min depth']), min(fmax, m['max depth'])
         tt = m['top temperature'] if m['top temperature'] >= 0 else adiab(zt)
@@ -255,7 +266,7 @@ def documented(kind, m, fmin, fmax, depth, old):
 def world_text(fdir, fmin, fmax, models):
     return json.dumps({
         "version": "1.1", "coordinate system": {"model": "cartesian"}, "gravity model": {"model": "uniform", "magnitude": G},
-        "potential mantle temperature": TP, "thermal expansion coefficient": ALPHA, "specific heat": CP,
+        "potential mantle temperature": TP, "thermal expansion coefficient": ALPHA, "specific heat": CP, "thermal diffusivity": KAPPA,
         "features": [{"model": FEATURE_NAME[fdir], "name": "F", "min depth": fmin, "max depth": fmax,
                       "coordinates": [[0, 0], [1e6, 0], [1e6, 1e6], [0, 1e6]], "temperature models": models}]})
 
@@ -454,6 +465,18 @@ def native_oracle(witness, work, search_seed=None):
         return ridge_oracle(work)
     if witness.get('unit') == 'fault_C_smooth':
         return fault_smooth_oracle(work)
+    if witness.get('unit') == 'oceanic_plate_T_plate_constant_age':
+        n = 0
+        for age in (1e6, 40e6, 120e6):
+            for tb in (1600.0, -1):
+                for op in ('replace', 'add'):
+                    m = {'min depth': 0.0, 'max depth': 95e3, 'top temperature': 273.15, 'bottom temperature': tb, 'plate age': age / 1.0, 'operation': op}
+                    m['plate age'] = age
+                    r = one_case('oceanic_plate', 'plate model constant age', m, 0.0, 95e3, [0.0, 1e3, 10e3, 47.5e3, 80e3, 95e3], work)
+                    n += 1
+                    if r is not None:
+                        return r
+        return dict(status='holds', detail='%d oceanic plates with a constant-age plate model agree with the 100-term series' % n)
     if witness.get('unit'):
         return dict(status='no-native-oracle', detail='no replay oracle for unit %s' % witness['unit'])
     fdir, kind = witness.get('family', 'continental_plate'), witness.get('kind', 'linear')
